@@ -1277,6 +1277,24 @@ pub fn run(ctx: &mut Ctx) {
         ctx.require_classes("shape.large", &["add:gbd>1,1<hint-gcd<gbd", "add:gbd>1,hint-gcd=1", "add:gbd>1,zero-result", "mul:cross-cancel-both", "div:cancel-both", "gcd(denominators):3+words(Lehmer)", "from_parts:reduces-by-3+word-gcd"]);
     }
 
+    // very long components (>= 300 words: the double-word Lehmer guess of the integer gcd that every
+    // RBig reduction goes through), lengths differing by two words, top words with different
+    // numbers of leading zeros
+    {
+        let nums: Vec<BigInt> = vec![bi(320, "lcgA"), bi(320, "lcgA") >> 3u32, bi(320, "lcgA") >> 9u32, bi(301, "ones") >> 5u32];
+        let dens: Vec<BigInt> = vec![bi(318, "lcgB"), bi(318, "sparse"), bi(299, "lcgB") | BigInt::one()];
+        let gs: Vec<BigInt> = vec![BigInt::one(), bi(3, "lcgA")];
+        let (hn, hd, hg) = (nums.len() as u64, dens.len() as u64, gs.len() as u64);
+        let (nr, dr, gr) = (&nums, &dens, &gs);
+        let one = BigInt::one();
+        let oner = &one;
+        ctx.sweep("shape.huge", hn * hd * hg * 2, |i, rec| {
+            let [ia, ib, ig, pl] = unflatten(i, [hn, hd, hg, 2]);
+            shape_case(rec, &nr[ia], &dr[ib], oner, oner, &gr[ig], pl * 2, false, pl == 1);
+            rec.sample(|| format!("{}-word / {}-word fraction, shared factor #{}", word_len(nr[ia].magnitude()), word_len(dr[ib].magnitude()), ig));
+        });
+    }
+
     // pow / cubic of shape fractions
     let pexps: Vec<usize> = ctx.pick(vec![0, 1, 2, 3, 5], vec![0, 1, 2, 3, 4, 5, 7, 16]);
     let np = pexps.len() as u64;
